@@ -59,7 +59,7 @@ def run_case(rng, idx, tier, lane, ctx):
         kt = rng.randrange(c.nP)
         pn = c.params[kt]
         F = 10 ** rng.choice([9, 10, 11])
-        rep = lambda txt: re.sub(r"\b%s\b" % re.escape(pn), "(%d*%s)" % (F, pn), txt)
+        rep = lambda txt: re.sub(r"\b%s\b" % re.escape(pn), "(%s*%s)" % (repr(float(F)), pn), txt)
         spec2 = dict(c.spec)
         spec2["events"] = [{"rate": rep(e["rate"]), "trans": [[t[0], t[1], t[2], rep(str(t[3]))] for t in e["trans"]]} for e in c.spec["events"]]
         spec2["odes"] = [[s_, rep(eq)] for s_, eq in c.spec["odes"]]
